@@ -52,6 +52,8 @@ fn run<const N: usize>(fail_at: Option<usize>, panic_mode: bool, out: &mut Sink)
     NEXT.with(|n| *n.borrow_mut() = 0);
     PLAN.with(|p| *p.borrow_mut() = (fail_at, panic_mode));
     let data = vec![7u8; N + 2];
+    let k0 = fail_at.map(|k| k.to_string()).unwrap_or_else(|| "none".into());
+    out.announce(&format!("guard {} {} {}", N, k0, if panic_mode { "panic" } else { "error" }));
     let res = catch_unwind(AssertUnwindSafe(|| {
         let mut s = &data[..];
         <[Tracked; N]>::deserialize_reader(&mut s)
